@@ -273,39 +273,39 @@ ForkVerdict(kind, r, c, where) ==
          ELSE OK
 
 \* S = [p1, p2 : previous observations; g1, d1, g2, d2 : intended gumbel/disable per quantiser; f : forked]
+\* One event: [S |-> state after the event, v |-> verdict of the event].  (Not recursive: the walk below calls it
+\* and recurses at shallow depth.)
+WalkStep(kind, e, i, S) ==
+    LET a  == e.act
+        where == "event " \o ToString(i) \o " " \o ToString(a)
+    IN
+    IF a.a = "fork" THEN
+         IF S.f THEN [S |-> S, v |-> Viol("trace: second fork")]
+         ELSE IF ~Untouched(S.p1, e.obs)
+         THEN [S |-> S, v |-> Viol("C11.fork at " \o where \o ": copying the model changed the original")]
+         ELSE [S |-> [S EXCEPT !.p1 = e.obs, !.p2 = e.obs2, !.g2 = S.g1, !.d2 = S.d1, !.f = TRUE],
+               v |-> ForkVerdict(kind, e.obs, e.obs2, where)]
+    ELSE IF e.o = 2 /\ ~S.f THEN [S |-> S, v |-> Viol("trace: call on a copy that does not exist")]
+    ELSE LET two  == e.o = 2
+             prev == IF two THEN S.p2 ELSE S.p1
+             obs  == IF two THEN e.obs2 ELSE e.obs
+             g    == IF two THEN S.g2 ELSE S.g1
+             d    == IF two THEN S.d2 ELSE S.d1
+             \* intended gumbel / disable of every quantiser after the call (only MPS updates carry them)
+             gn == [k \in Idx(g) |-> IF kind = "mps" /\ ArgFor(a, k).gumbel # NoB THEN B(ArgFor(a, k).gumbel) ELSE g[k]]
+             dn == [k \in Idx(d) |-> IF kind = "mps" /\ ArgFor(a, k).disable # NoB THEN B(ArgFor(a, k).disable) ELSE d[k]]
+             w2 == where \o (IF two THEN " on the copy" ELSE IF S.f THEN " on the original" ELSE "")
+         IN  IF S.f /\ ~Untouched(IF two THEN S.p1 ELSE S.p2, IF two THEN e.obs ELSE e.obs2)
+             THEN [S |-> S, v |-> Viol("C11.independence at " \o w2 \o ": the call changed the OTHER object")]
+             ELSE [S |-> IF two THEN [S EXCEPT !.p1 = e.obs, !.p2 = obs, !.g2 = gn, !.d2 = dn]
+                         ELSE [S EXCEPT !.p1 = obs, !.p2 = (IF S.f THEN e.obs2 ELSE S.p2), !.g1 = gn, !.d1 = dn],
+                   v |-> StepVerdict(kind, prev, [act |-> a, obs |-> obs, mc |-> e.mc], gn, dn, w2)]
+
 RECURSIVE Walk(_, _, _, _, _)
 Walk(kind, ev, i, S, acc) ==
     IF i > Len(ev) THEN acc
-    ELSE LET e  == ev[i]
-             a  == e.act
-             where == "event " \o ToString(i) \o " " \o ToString(a)
-         IN
-         IF a.a = "fork" THEN
-              IF S.f THEN Viol("trace: second fork")
-              ELSE IF ~Untouched(S.p1, e.obs)
-              THEN Viol("C11.fork at " \o where \o ": copying the model changed the original")
-              ELSE LET v == ForkVerdict(kind, e.obs, e.obs2, where) IN
-                   IF Lvl(v) = 3 THEN v
-                   ELSE Walk(kind, ev, i + 1,
-                             [S EXCEPT !.p1 = e.obs, !.p2 = e.obs2, !.g2 = S.g1, !.d2 = S.d1, !.f = TRUE], Worse(acc, v))
-         ELSE IF e.o = 2 /\ ~S.f THEN Viol("trace: call on a copy that does not exist")
-         ELSE LET two  == e.o = 2
-                  prev == IF two THEN S.p2 ELSE S.p1
-                  obs  == IF two THEN e.obs2 ELSE e.obs
-                  g    == IF two THEN S.g2 ELSE S.g1
-                  d    == IF two THEN S.d2 ELSE S.d1
-                  \* intended gumbel / disable of every quantiser after the call (only MPS updates carry them)
-                  gn == [k \in Idx(g) |-> IF kind = "mps" /\ ArgFor(a, k).gumbel # NoB THEN B(ArgFor(a, k).gumbel) ELSE g[k]]
-                  dn == [k \in Idx(d) |-> IF kind = "mps" /\ ArgFor(a, k).disable # NoB THEN B(ArgFor(a, k).disable) ELSE d[k]]
-                  w2 == where \o (IF two THEN " on the copy" ELSE IF S.f THEN " on the original" ELSE "")
-                  v  == StepVerdict(kind, prev, [act |-> a, obs |-> obs, mc |-> e.mc], gn, dn, w2)
-              IN  IF S.f /\ ~Untouched(IF two THEN S.p1 ELSE S.p2, IF two THEN e.obs ELSE e.obs2)
-                  THEN Viol("C11.independence at " \o w2 \o ": the call changed the OTHER object")
-                  ELSE IF Lvl(v) = 3 THEN v
-                  ELSE Walk(kind, ev, i + 1,
-                            IF two THEN [S EXCEPT !.p1 = e.obs, !.p2 = obs, !.g2 = gn, !.d2 = dn]
-                                   ELSE [S EXCEPT !.p1 = obs, !.p2 = (IF S.f THEN e.obs2 ELSE S.p2), !.g1 = gn, !.d1 = dn],
-                            Worse(acc, v))
+    ELSE LET r == WalkStep(kind, ev[i], i, S)
+         IN  IF Lvl(r.v) = 3 THEN r.v ELSE Walk(kind, ev, i + 1, r.S, Worse(acc, r.v))
 
 InitVerdict(t) ==
     LET o == t.init
